@@ -194,7 +194,7 @@ def h_stop_daemon(reaction: int, r: int, has_bo: bool, bo: int, has_to: bool, to
 STEPS = ['label_off', 'label_on', 'edit', 'mark_deleted', 'gone_unmarked', 'pause_on', 'pause_off', 'noop_event']
 
 
-def run_history(kind, steps, gaps, timer_kw=None, horizon=50, ties=(), exit_delay=0, stubborn=False):
+def run_history(kind, steps, gaps, timer_kw=None, horizon=50, ties=(), exit_delay=0, stubborn=False, flavour=None):
     """kind: 'daemon' | 'timer'. Returns (log, errors)."""
     obj = base_body(labels={'run': 'yes'})
     w = World(obj, tmode='symbolic')
@@ -205,7 +205,25 @@ def run_history(kind, steps, gaps, timer_kw=None, horizon=50, ties=(), exit_dela
     w.settings.background.instant_exit_timeout = None
     w.settings.background.instant_exit_zero_time_cycles = 5
 
-    if kind == 'daemon' and stubborn:
+    if kind == 'daemon' and flavour == 'self_exit':
+        @kopf.daemon(PLURAL, id='d', registry=w.registry, labels={'run': 'yes'}, cancellation_timeout=5)
+        async def d(stopped, **kw):
+            log.append(('enter', loop.time()))              # ... and returns at once: it exits on its own
+            log.append(('exit', loop.time(), str(stopped.reason)))
+    elif kind == 'daemon' and flavour == 'crash':
+        def boom(**kw):
+            log.append(('enter', loop.time()))              # (the attempt to start it is what is counted)
+            reason = None
+            for mem in w.memories.iter_all_daemon_memories():
+                if 'd' in mem.running_daemons:
+                    reason = mem.running_daemons['d'].stopper.reason
+            log.append(('exit', loop.time(), str(reason)))
+            raise RuntimeError('the initial delay cannot be computed')
+
+        @kopf.daemon(PLURAL, id='d', registry=w.registry, labels={'run': 'yes'}, cancellation_timeout=5, initial_delay=boom)
+        async def d(stopped, **kw):
+            await stopped.wait()
+    elif kind == 'daemon' and stubborn:
         @kopf.daemon(PLURAL, id='d', registry=w.registry, labels={'run': 'yes'}, cancellation_backoff=2, cancellation_timeout=5)
         async def d(stopped, **kw):
             # ignores the stop flag; exits only when cancelled
@@ -241,7 +259,7 @@ def run_history(kind, steps, gaps, timer_kw=None, horizon=50, ties=(), exit_dela
             live[1] = max(live[1], live[0])
             log.append(('tick', loop.time()))
             try:
-                await asyncio.sleep(1)
+                await asyncio.sleep(2)          # (2 s: with integer instants a step can fall strictly inside a tick)
             finally:
                 live[0] -= 1
 
@@ -353,7 +371,8 @@ def h_history(s0: int, s1: int, s2: int, g0: int, g1: int, g2: int, r: int) -> b
     try:
         if not c.get('slow_exit'):
             r = 0
-        log, live, w = run_history(c['kind'], steps, [g0, g1, g2][:n], timer_kw=c.get('timer_kw'), exit_delay=r, stubborn=c.get('stubborn', False))
+        log, live, w = run_history(c['kind'], steps, [g0, g1, g2][:n], timer_kw=c.get('timer_kw'), exit_delay=r, stubborn=c.get('stubborn', False),
+                                   flavour=c.get('flavour'))
     except (Deadlock, Diverged, Livelock):
         vkopf.witness('stalled')
         return vkopf.verdict(False)
@@ -377,7 +396,22 @@ def h_history(s0: int, s1: int, s2: int, g0: int, g1: int, g2: int, r: int) -> b
             ok = False
     elif killed[2] != 0:
         ok = False
-    if c['kind'] == 'daemon' and c.get('stubborn'):
+    if c['kind'] == 'daemon' and c.get('flavour'):
+        # an instance that exits on its own (returns, or its guarding task fails) is not restarted during the operator's lifetime
+        # (an instance that was already asked to stop when it ended did not end on its own: that one may come back)
+        enters = [e for e in log if e[0] == 'enter']
+        own = False
+        for e in log:
+            if e[0] == 'enter' and own:
+                ok = False
+            if e[0] == 'exit' and e[2] == 'None':
+                own = True
+        stops0 = [e for e in log if e[0] == 'step' and e[1] == 0 and e[2] in ('label_off', 'mark_deleted', 'gone_unmarked', 'pause_on')]
+        if not enters and not stops0:
+            ok = False
+        if own:
+            vkopf.witness('exited_on_its_own')
+    elif c['kind'] == 'daemon' and c.get('stubborn'):
         # a daemon that ignores the flag is cancelled after the backoff, whoever asked it to stop first
         enters = [e for e in log if e[0] == 'enter']
         exits = [e for e in log if e[0] == 'exit']
@@ -445,6 +479,18 @@ def obligations():
         obs.append(Ob('h_history', {'kind': 'daemon', 'n': 2, 'slow_exit': True, 'pin': {'s0': a, 's1': b}}, tiers=('quick',), timeout=900,
                       path_timeout=200))
     obs += split(Ob('h_history', {'kind': 'daemon', 'n': 2, 'slow_exit': True}, tiers=('thorough',), timeout=1800, path_timeout=200), s0=safe, s1=safe)
+    for fl, pairs in (('self_exit', ((7, 2), (0, 1), (5, 6))), ('crash', ((7, 7), (2, 1)))):
+        for (a, b) in pairs:
+            obs.append(Ob('h_history', {'kind': 'daemon', 'n': 2, 'flavour': fl, 'pin': {'s0': a, 's1': b}}, tiers=('quick',), timeout=900,
+                          path_timeout=200))
+        obs += split(Ob('h_history', {'kind': 'daemon', 'n': 2, 'flavour': fl}, tiers=('thorough',), timeout=1800, path_timeout=200), s0=safe, s1=safe)
+    obs.append(Ob('h_history', {'kind': 'daemon', 'n': 2, 'flavour': 'self_exit', 'pin': {'s0': 7, 's1': 2}}, tiers=('quick', 'thorough'), timeout=600,
+                  path_timeout=200, twins=['exited_on_its_own'], main=False))
+    # a timer whose slow tick is in progress when the operator pauses and resumes at once: never two instances
+    # (the steps of this harness wait for the processing of the previous one -- stop delays included --, so "stops matching and
+    # matches again while the tick is still running" is only reachable through the pause toggle, which is not processed per object)
+    obs.append(Ob('h_history', {'kind': 'timer', 'n': 2, 'timer_kw': {'interval': 3}, 'gap_max': 4, 'pin': {'s0': 5, 's1': 6}}, tiers=('quick',),
+                  timeout=900, path_timeout=200))
     for kw in ({'idle': 4}, {'interval': 3}):
         for a in (3, 4, 5, 7):
             obs.append(Ob('h_history', {'kind': 'timer', 'n': 1, 'timer_kw': kw, 'gap_max': 8, 'pin': {'s0': a}}, tiers=('quick',),
